@@ -62,6 +62,8 @@ func checkC20(c *Ctx, r *Report) {
 	c20CopyNetValues(c, r, "C20.R3.copynet-values")
 	r.rule("C20.R4.escape-toggle", 1, "normalizedString toggles its escape flag on a backslash")
 	escapeToggle(c, r, "C20.R4.escape-toggle", "normalizedString", "a capital letter behind an escaped backslash is not folded in the Dedup key: records that IsDuplicate calls equal are kept apart and their TTLs not merged")
+	copyKeepsType(c, r, "C20.R3.copy-type")
+	sliceLengthsCompared(c, r, "C20.R1.list-lengths")
 }
 
 // c20R5: sort.Slice(x, less): the less closure indexes x and nothing else with its two index parameters
@@ -508,6 +510,21 @@ func c20R4(c *Ctx, r *Report) {
 		g := Guard{Name: "written.Ttl > source.Ttl", Op: "lt", A: func(v ssa.Value) bool { return v == y }, B: func(v ssa.Value) bool { return v == x }, Holds: true}
 		if miss := guardsMissing(fn, st.Block(), []Guard{g}); len(miss) > 0 {
 			problems = append(problems, fmt.Sprintf("%s: TTL store is not guarded by %s (TTL may be raised)", c.pos(st.Pos()), miss[0]))
+		}
+		// ... and by nothing else about the TTLs: a smaller TTL always wins (zero included)
+		for _, f := range factsAt(fn, st.Block()) {
+			bin, ok := f.Atom.(*ssa.BinOp)
+			if !ok {
+				continue
+			}
+			isTtl := func(v ssa.Value) bool { return anyIn(sliceOf(v), readsField("RR_Header", "Ttl")) }
+			if !isTtl(bin.X) && !isTtl(bin.Y) {
+				continue
+			}
+			if isTtl(bin.X) && isTtl(bin.Y) {
+				continue // the comparison of the two TTLs
+			}
+			problems = append(problems, fmt.Sprintf("%s: the TTL merge is also conditioned on %v = %v: a duplicate with that TTL does not lower the survivor's TTL, so the survivor does not carry the smallest TTL of its group", c.pos(st.Pos()), f.Atom, f.Holds))
 		}
 	})
 	if nTtl == 0 {
